@@ -571,6 +571,28 @@ pub fn run(o: &Opts) -> Report {
         rlines.push(format!("coderead {alphabet} {n} {}", if bytes.is_empty() { "-".to_string() } else { hex(&bytes) }));
         rgot.push(got);
     }
+    // directed: the `max_symbol` field at every width and at the boundary values of that width and of
+    // the alphabet (a 16-bit field holding 0xFFFE / 0xFFFF overflows `2 + value` in u16)
+    for &alphabet in &[40usize, 256, 280, 2328] {
+        for n3 in 0..8u32 {
+            for value in max_symbol_values(n3, alphabet as u64) {
+                for tokens in [&[1u8, 1][..], &[2, 2, 2, 2], &[1]] {
+                    let mut w = BitW::new();
+                    w.normal_with_max_symbol(n3, value, tokens);
+                    w.put(0xA5A5, 16);
+                    let bytes = w.finish();
+                    let n = 4usize;
+                    let got = match catch(|| hk::read_code_then_symbols(&bytes, alphabet as u16, n)) {
+                        Ok(Ok((single, syms, err))) => format!("ok single={} syms={} end={}", single as u8, join(&syms), if err.is_none() { "ok" } else { "err" }),
+                        Ok(Err(_)) => "err".to_string(),
+                        Err(m) => format!("PANIC {m}"),
+                    };
+                    rlines.push(format!("coderead {alphabet} {n} {}", hex(&bytes)));
+                    rgot.push(got);
+                }
+            }
+        }
+    }
     let rreplies = ask_parallel(&o.drv, &rlines, 8);
     for ((line, got), reply) in rlines.iter().zip(&rgot).zip(&rreplies) {
         rep.case(line, true);
